@@ -92,6 +92,22 @@ def iterOf (t : ClassTable) (cls : String) : Outcome :=
      | _ => .silent)
   | _ => .silent
 
+/-- `reversed(x)`: `__reversed__`, else the sequence protocol (`__len__` **and** `__getitem__`), else TypeError -/
+def reversedOf (t : ClassTable) (cls : String) : Outcome :=
+  match slotBeh t cls "__reversed__" "" with
+  | "raises" => .raises
+  | "absent" | "missing" =>
+    (match slotBeh t cls "__len__" "", slotBeh t cls "__getitem__" "same" with
+     | "absent", _ | "raises", _ | _, "absent" | _, "raises" => .raises
+     | _, _ => .silent)
+  | _ => .silent
+
+/-- `for i in range(len(x)): x[i]`: walks the members through `__len__` and `__getitem__` without `__iter__` -/
+def indexWalkOf (t : ClassTable) (cls : String) : Outcome :=
+  match slotBeh t cls "__len__" "", slotBeh t cls "__getitem__" "same" with
+  | "absent", _ | "raises", _ | _, "absent" | _, "raises" => .raises
+  | _, _ => .silent
+
 /-- use as a dict key / set element -/
 def hashOf (t : ClassTable) (cls : String) : Outcome :=
   match slotBeh t cls "__hash__" "" with
